@@ -111,6 +111,20 @@ pub fn utils_q(f: &str, args: &[&str]) -> String {
                 (false, _) => drain(PI::<false>::with_pos(&ws, nb, n(2) as usize)),
             }
         }
+        // u pcrt (<content> <len>)*: bincode round trip of stand-alone `PrefixCode` values (a public serialisable
+        // struct with public fields: every value is constructible) and of a vector of them
+        "pcrt" => {
+            use qwt::quadwt::huffqwt::PrefixCode;
+            let codes: Vec<PrefixCode> = (0..args.len() / 2).map(|i| PrefixCode { content: n(2 * i) as u32, len: n(2 * i + 1) as u32 }).collect();
+            let mut okv = true;
+            for c in &codes {
+                let b = bincode::serialize(c).unwrap();
+                okv &= matches!(bincode::deserialize::<PrefixCode>(&b), Ok(ref d) if d == c);
+            }
+            let b = bincode::serialize(&codes).unwrap();
+            okv &= matches!(bincode::deserialize::<Vec<PrefixCode>>(&b), Ok(ref d) if *d == codes);
+            o_val(okv as usize)
+        }
         "text_remap" => {
             let mut v: Vec<u8> = args.iter().map(|x| x.parse::<u8>().unwrap()).collect();
             let d = text_remap(&mut v);
